@@ -13,6 +13,7 @@ import itertools
 import copy
 import json
 import math
+import sys
 
 from harness import core
 from harness.core import enc_str, dec_str
@@ -23,26 +24,29 @@ MANIFEST = dict(
     text="Lean theorems (Props/C11.lean, all unbounded): C11_decode_ren - the reader model (json.loads) decodes every JSON text of a "
          "value, whatever blanks/line breaks stand between the tokens, back to that value (all strings: quote, backslash, "
          "control, non-ASCII; ints; float lexemes; true/false/null; unbounded depth and width). "
-         "C11_roundtrip_bounded - for every tree with unique keys, valid float lexemes and depth <= 111 and EVERY option record "
+         "C11_roundtrip : C11_roundtrip_stmt (the full statement, no hypothesis beyond well-formedness) - for every tree with unique "
+         "keys and valid float lexemes, of any width and nesting depth, and EVERY option record "
          "(compress, every indent, pairs_in_one_line on and off - the padded pair layout included -, both values of "
          "skip_empty_arrays) the exported text is accepted by the reader and the decoded value equals the tree minus the "
-         "containers skip_empty_arrays drops, as Python compares values (pyEq: class tags and dict order ignored); this is the "
-         "full statement C11_roundtrip_stmt plus the hypothesis depth <= 111. C11_roundtrip_ordered_partial gives the decoded value "
+         "containers skip_empty_arrays drops, as Python compares values (pyEq: class tags and dict order ignored). "
+         "C11_roundtrip_ordered gives the decoded value "
          "exactly: the tree whose pair-layout records are listed in column (first-appearance) order (pairOrder); "
-         "C11_options_agree_all: no option changes the decoded value. C11_roundtrip_colorder_partial / C11_roundtrip_partial: exact equality, dict order included, whenever the records "
+         "C11_options_agree_all: no option changes the decoded value. C11_roundtrip_colorder / C11_roundtrip_pairs_off: exact equality, dict order included, whenever the records "
          "already list their keys in column order, in particular with the pair layout off. C11_pair_record: one padded record "
-         "is a JSON text of the column-ordered record for any column widths. C11_roundtrip_stmt itself is kept visible and "
-         "proved FALSE (C11_roundtrip_stmt_false) by the counter-example of the open finding C11-e (C11_depth_cex: 112 nested "
-         "dicts are exported as text that is not JSON), so depth <= 111 is the only and a necessary restriction. "
+         "is a JSON text of the column-ordered record for any column widths. C11_depth_any: n nested dicts load back for every n "
+         "(the 111-level guard of the debug printer no longer reaches the JSON export: fix C11-e). "
          "Constructor side: C11_load_hook - json.loads(text, object_pairs_hook=n0dict) accepts the same texts, fails with the "
          "same error and builds the same value as json.loads(text) with every object an n0dict and arrays plain lists; "
          "C11_load / C11_load_list - n0dict(text) / n0list(text) = json.loads(text.strip()) with those class tags for every "
          "non-empty text whose first non-blank character is { / [ (errors included); C11_load_dispatch - empty text gives the empty "
-         "container, any other first character a TypeError; C11_export_construct_partial - n0dict(x.to_json(..)) / "
-         "n0list(x.to_json(..)) rebuild the tree for every option record (depth <= 111). "
-         "Differential only: nesting deeper than 111 (finding C11-e), XML texts handed to n0dict (other properties), file=/force_dict= "
+         "container, any other first character a TypeError; C11_export_construct - n0dict(x.to_json(..)) / "
+         "n0list(x.to_json(..)) rebuild the tree for every option record, any depth. "
+         "Outside the model: the interpreter's recursion limit (n0pretty and json.loads recurse once per nesting level, so CPython "
+         "raises RecursionError near 1000 nested containers; the theorems speak about the code, not about that limit; the "
+         "correspondence and the evaluators exercise nesting up to 900 levels). "
+         "Differential only: XML texts handed to n0dict (other properties), file=/force_dict= "
          "keywords, xpath navigation of the constructed object (evaluator `constructor`). "
-         "The model follows the code with fix patches C11-a, C11-c, C11-d, C11-f applied.",
+         "The model follows the code with fix patches C11-a, C11-c, C11-d, C11-f, C11-e applied.",
     note="json.loads, json.dumps(ensure_ascii=False) and the constructors' dispatch are modelled and validated by their own streams "
          "(json.loads, json.esc, json.ctor); floats are opaque lexemes.",
     design_ref="5/C11",
@@ -160,6 +164,46 @@ def deep_tree(n, kind, leaf):
     return t
 
 
+def tree_of(c):
+    """the tree of a round-trip case: given in full (`t`) or, for the deep family, as nested/kind/leaf (the case stays a
+    flat JSON object, so recording and replaying it never meets the recursion limit of the json module)"""
+    return c["t"] if "t" in c else deep_tree(c["nested"], c["kind"], c["leaf"])
+
+
+def has_tree(c):
+    return "t" in c or ("nested" in c and "kind" in c and "leaf" in c)
+
+
+def valid_case_tree(c):
+    if "t" in c:
+        return valid_tree(c["t"])
+    n = c.get("nested")
+    return isinstance(n, int) and not isinstance(n, bool) and 1 <= n <= DEEP_MAX and c.get("kind") in ("L", "D", "M") and valid_tree(c.get("leaf"), False) and n + levels(c["leaf"]) <= DEEP_MAX
+
+
+def levels(t):
+    """number of nested containers on the longest branch, computed without recursion"""
+    best, stack = 0, [(t, 0)]
+    while stack:
+        x, d = stack.pop()
+        if isinstance(x, dict) and "xs" in x:
+            best = max(best, d + 1)
+            stack += [(y, d + 1) for y in x["xs"]]
+        elif isinstance(x, dict) and "kv" in x:
+            best = max(best, d + 1)
+            stack += [(e[1], d + 1) for e in x["kv"] if isinstance(e, list) and len(e) == 2]
+    return best
+
+
+# n0pretty, json.loads' scanner and the evaluator's own helpers (build, plain, prune, typed_eq) recurse once per nesting level.
+# With CPython 3.12's default limit of 1000 frames the first RecursionError (measured through ctx.evaluate, called from a
+# script standing on 3 frames) comes from n0pretty, at 991..994 nested containers depending on kind and leaf; json.loads
+# and the helpers still pass there.  900 keeps a margin of ~90 frames for the frames ./check itself stands on.
+# Deeper trees are beyond the interpreter's recursion limit: an environment limit, not a finding -- such a case is skipped.
+DEEP_MAX = 900
+SKIPPED = {"beyond the interpreter's recursion limit": 0}
+
+
 def valid_tree(t, root=True):
     if t is None or isinstance(t, (bool, int, str)):
         return not root
@@ -172,7 +216,12 @@ def valid_tree(t, root=True):
             return False
         return not root and math.isfinite(f) and repr(f) == t["F"] and t["F"] != "-0.0"
     if set(t) == {"L", "xs"}:
-        return t["L"] in ("n", "p") and (not root or t["L"] == "n") and isinstance(t["xs"], list) and all(valid_tree(x, False) for x in t["xs"])
+        if not (t["L"] in ("n", "p") and (not root or t["L"] == "n") and isinstance(t["xs"], list)):
+            return False
+        for x in t["xs"]:  # a loop, not all(generator): one frame per nesting level
+            if not valid_tree(x, False):
+                return False
+        return True
     if set(t) == {"D", "kv"}:
         if t["D"] not in ("n", "p") or (root and t["D"] != "n") or not isinstance(t["kv"], list):
             return False
@@ -250,15 +299,6 @@ def with_shared(rng, t):
     return t
 
 
-def depth_of(t, lvl=0):
-    """deepest level at which a non-empty container stands (root = level 0); -1 if none"""
-    if isinstance(t, dict) and "xs" in t and t["xs"]:
-        return max([lvl] + [depth_of(x, lvl + 1) for x in t["xs"]])
-    if isinstance(t, dict) and "kv" in t and t["kv"]:
-        return max([lvl] + [depth_of(v, lvl + 1) for _, v in t["kv"]])
-    return -1
-
-
 def opts_kw(o):
     return dict(indent=o["indent"], pairs_in_one_line=o["pairs"], skip_empty_arrays=o["skip"], compress=o["compress"])
 
@@ -302,9 +342,19 @@ def typed_eq(a, b):
     if isinstance(a, str) and isinstance(b, str):
         return a == b
     if isinstance(a, list) and isinstance(b, list):
-        return len(a) == len(b) and all(typed_eq(x, y) for x, y in zip(a, b))
+        if len(a) != len(b):
+            return False
+        for x, y in zip(a, b):  # loops, not all(generator): one frame per nesting level
+            if not typed_eq(x, y):
+                return False
+        return True
     if isinstance(a, dict) and isinstance(b, dict):
-        return set(a) == set(b) and all(typed_eq(a[k], b[k]) for k in a)
+        if set(a) != set(b):
+            return False
+        for k in a:
+            if not typed_eq(a[k], b[k]):
+                return False
+        return True
     return False
 
 
@@ -335,7 +385,11 @@ def strip_outside(text):
 # C: the statement on the implementation
 # ---------------------------------------------------------------------------
 def check_roundtrip(c):
-    obj = build(c["t"], {} if c.get("shared") else None)
+    t = tree_of(c)
+    if levels(t) > DEEP_MAX:
+        SKIPPED["beyond the interpreter's recursion limit"] += 1
+        return None
+    obj = build(t, {} if c.get("shared") else None)
     o = c["o"]
     if c.get("after_debug"):
         # the same process has printed the same tree with the debug convention before (n0debug / n0pretty):
@@ -406,27 +460,22 @@ def check_constructor(c):
 
 
 # ---------------------------------------------------------------------------
-# known finding classes
+# known finding classes: none open (C11-e is fixed; a tree nested deeper than DEEP_MAX is skipped by check_roundtrip)
 # ---------------------------------------------------------------------------
-def too_deep(c):
-    """C11-e: a non-empty container stands at nesting level >= 111 (its items are printed as {.......})"""
-    return "t" in c and depth_of(c["t"]) >= 111
-
-
 def in_known_eval(c, detail=None):
-    return "C11-e" if too_deep(c) else None
+    return None
 
 
 def witness_fails(finding):
     core.import_repo()
     w = finding["witness"]
-    c = {"t": deep_tree(w["nested"], w["kind"], w["leaf"]), "o": w["o"]}
+    c = {"nested": w["nested"], "kind": w["kind"], "leaf": w["leaf"], "o": w["o"]}
     return check_roundtrip(c) is not None
 
 
 def shrink_failure(evaluator, case):
-    if "t" in case:
-        return core.shrink(case, lambda c: valid_opts(c.get("o")) and valid_tree(c.get("t")) and not too_deep(c) and check_roundtrip(c) is not None)
+    if has_tree(case):
+        return core.shrink(case, lambda c: valid_opts(c.get("o")) and valid_case_tree(c) and check_roundtrip(c) is not None)
 
     def ok_text(c):
         try:
@@ -440,9 +489,12 @@ def shrink_failure(evaluator, case):
 
 def replay(rp):
     c = rp["case"]
-    if "t" in c and "o" in c and "correspondence_stream" not in rp:
+    if has_tree(c) and "o" in c and "correspondence_stream" not in rp:
         bad = check_roundtrip(c)
-        print("tree:", repr(build(c["t"]))[:500], "options:", c["o"])
+        if "t" in c:
+            print("tree:", repr(build(c["t"]))[:500], "options:", c["o"])
+        else:
+            print("tree: %d nested containers (kind %s) around %r" % (c["nested"], c["kind"], c["leaf"]), "options:", c["o"])
         print("result:", "property holds" if bad is None else bad)
         return 1 if bad else 0
     if "text" in c and "correspondence_stream" not in rp:
@@ -500,13 +552,13 @@ def impl_loads(c):
 
 
 def impl_dump(c):
-    obj = build(c["t"])
+    obj = build(tree_of(c))
     r = core.call(obj.to_json, **opts_kw(c["o"]))
     return "ok " + enc_str(strip_outside(r[1])) if r[0] == "ok" else "err " + r[1]
 
 
 def impl_dump_exact(c):
-    obj = build(c["t"])
+    obj = build(tree_of(c))
     r = core.call(obj.to_json, **opts_kw(c["o"]))
     return "ok " + enc_str(r[1]) if r[0] == "ok" else "err " + r[1]
 
@@ -570,11 +622,11 @@ IMPL_OF = {"json.ctor": impl_ctor, "json.dump": impl_dump, "json.loads": impl_lo
 
 
 def line_dump(c):
-    return "json.dump %s %s" % (opts_toks(c["o"]), core.enc_val(build(c["t"])))
+    return "json.dump %s %s" % (opts_toks(c["o"]), core.enc_val(build(tree_of(c))))
 
 
 def line_dumptext(c):
-    return "json.dumptext %s %s" % (opts_toks(c["o"]), core.enc_val(build(c["t"])))
+    return "json.dumptext %s %s" % (opts_toks(c["o"]), core.enc_val(build(tree_of(c))))
 
 
 INVALID = [
@@ -735,15 +787,20 @@ def run(ctx):
                 ex.append({"t": {"L": "n", "xs": xs}, "o": o})
     ctx.evaluate("roundtrip/exhaustive", ex, check_roundtrip, in_known=in_known_eval)
     ctx.extra["exhaustive_subspace"] = "all lists of one or two records over the keys k, v (each present/absent, both orders) with values from %r, all option combinations%s" % (small_vals, "" if ctx.tier == "thorough" else " with indent in {0,4}")
-    # deep nesting around the limit of 111 (finding C11-e lives beyond it)
+    # deep nesting: around the debug printer's guard of 111 levels (the JSON export must not be cut there: fix C11-e) and up
+    # to DEEP_MAX, which stays below the interpreter's recursion limit (beyond it: RecursionError, an environment limit)
+    assert sys.getrecursionlimit() >= 1000, "the deep family assumes CPython's default recursion limit"
     deep = []
-    for nn in (105, 110, 111, 112, 113, 120):
+    o_c = {"indent": 0, "pairs": True, "skip": False, "compress": True}
+    o_i = {"indent": 1, "pairs": True, "skip": True, "compress": False}
+    for nn in (105, 110, 111, 112, 113, 120, 200, 333, 500, DEEP_MAX - 2):  # the deepest leaf adds two levels
         for kind in ("L", "D", "M"):
             for leaf in (1, "x", {"L": "p", "xs": []}, {"L": "p", "xs": [{"D": "p", "kv": [["k", 1]]}]}):
-                for o in ({"indent": 0, "pairs": True, "skip": False, "compress": True}, {"indent": 1, "pairs": True, "skip": True, "compress": False}):
-                    deep.append({"t": deep_tree(nn, kind, leaf), "o": o})
+                for o in (o_c, o_i) if nn <= 200 else (o_c, dict(o_c, skip=True)):  # indented text grows with the square of the depth
+                    deep.append({"nested": nn, "kind": kind, "leaf": leaf, "o": o})
     ctx.evaluate("roundtrip/deep", deep, check_roundtrip, in_known=in_known_eval)
     ctx.correspond("json.dump/deep", deep, line_dump, impl_dump)
+    ctx.extra["deep_family"] = "nesting depths 105..%d; skipped as beyond the interpreter's recursion limit: %d" % (DEEP_MAX, SKIPPED["beyond the interpreter's recursion limit"])
 
     # ---- C2: constructor side
     rc = ctx.rng("ctor")
@@ -778,11 +835,13 @@ def run(ctx):
         "json.loads (C scanner of CPython 3.12) and json.dumps(s, ensure_ascii=False) are modelled by hand and validated by the streams json.loads / json.esc; lone surrogate escapes are outside the model (unsupported)",
         "indent is a natural number",
         "equality of decoded values is typed (bool/int/float/str/None distinguished) and ignores dict order, as Python's == on dicts does",
-        "the model follows n0pretty with fix patches C11-a (JSON string escaping), C11-c (pair layout comma), C11-d (skip_empty_arrays), C11-f (literal dict reads) applied",
+        "the model follows n0pretty with fix patches C11-a (JSON string escaping), C11-c (pair layout comma), C11-d (skip_empty_arrays), C11-f (literal dict reads), C11-e (no depth guard under json_convention) applied",
+        "the interpreter's recursion limit is outside the model: n0pretty (and json.loads) recurse once per nesting level, so CPython raises RecursionError near 1000 nested containers (sys.getrecursionlimit()); the theorems hold for the code at every depth, the implementation is exercised up to %d levels and deeper inputs are skipped, not findings" % DEEP_MAX,
+        "only json_convention=True (what to_json passes by default) is modelled; with json_convention=False n0pretty is a debug printer and keeps its 111-level guard",
     ]
     ctx.extra["trusted_base"] = [
         "hand-written reader model of json.loads (Model/Json.lean, parseValue/scanString/nscan) validated on valid, mutated and hand-made invalid texts",
         "hand-written model of the str branch of n0dict.__init__ / n0list.__init__ (n0dictOfText, n0listOfText, parseValueH = the scanner with object_pairs_hook) validated by stream json.ctor (values, class tags, exception classes; blanks that strip() removes and JSON rejects)",
         "the evaluator's reference semantics prune/plain (tied to the Lean prune/erase by stream json.expect)",
     ]
-    ctx.extra["differential_only"] = ["nesting deeper than 111 (finding C11-e)", "n0dict(xml text), file= / force_dict= keywords of the constructors", "xpath navigation of the constructed object"]
+    ctx.extra["differential_only"] = ["n0dict(xml text), file= / force_dict= keywords of the constructors", "xpath navigation of the constructed object"]
